@@ -19,7 +19,7 @@ EXPLANATION = (
     "strategy calls PinWords.has_finite_simples(basis) (W1); (b) has_finite_special_simples requires all three special tests, has_finite_simples requires "
     "the special tests And the pin-permutation test, and the latter is finiteness of M minus L(basis) in that order (W2); (c) the three special tests are "
     "one skeleton – Not Exists sym in all_symmetry_sets(T): Forall x in basis: Exists p in sym: x contains p – over the full orbit of a table of valid "
-    "permutations (W3), hence independent of the order of basis elements. NOT decided: that the tables are the right ones, that the automaton language is "
+    "permutations (W3), hence independent of the order of basis elements. (d) each table is, modulo the eight symmetries, the basis of the downward closure of the family it stands for (parallel alternations, wedge simples of type 1 / type 2), derived by the checker from the family (W5). NOT decided: that the automaton language is "
     "right (C15), agreement with the actual simples, symmetry invariance, and that the finite/polynomial short-circuits agree with the pin-word procedure."
 )
 
@@ -164,6 +164,10 @@ def _variants():
         V("wedge2-no-symmetries", replace_expr(PW, "PinWords.has_finite_wedges_type_2", "all_symmetry_sets(wedge2_b)", "[wedge2_b]"), "fire", "C16-W3"),
         V("wedge2-always-false", replace_stmt(PW, "PinWords.has_finite_wedges_type_2", "return True", "return False"), "fire", "C16-W3"),
         V("alternations-table-invalid", replace_expr(PW, "PinWords.has_finite_alternations", "Perm((1, 3, 0, 2))", "Perm((1, 3, 1, 2))"), "fire", "C16-W3"),
+        V("wedge1-table-typo", replace_expr(PW, "PinWords.has_finite_wedges_type_1", "Perm((0, 2, 1, 3))", "Perm((0, 2, 3, 1))"), "fire", "C16-W5"),
+        V("alt-table-typo", replace_expr(PW, "PinWords.has_finite_alternations", "Perm((1, 3, 0, 2))", "Perm((1, 3, 2, 0))"), "fire", "C16-W5"),
+        V("wedge2-table-symmetric-image", replace_expr(PW, "PinWords.has_finite_wedges_type_2", "(Perm((1, 0, 2, 3)), Perm((1, 0, 3, 2)), Perm((2, 0, 1, 3)), Perm((2, 0, 3, 1)), Perm((2, 1, 3, 0)), Perm((2, 3, 0, 1)), Perm((3, 0, 1, 2)), Perm((3, 0, 2, 1)), Perm((3, 1, 2, 0)), Perm((3, 2, 0, 1)))",
+          "(" + ", ".join("Perm(%r)" % (tuple(reversed(q)),) for q in [(1, 0, 2, 3), (1, 0, 3, 2), (2, 0, 1, 3), (2, 0, 3, 1), (2, 1, 3, 0), (2, 3, 0, 1), (3, 0, 1, 2), (3, 0, 2, 1), (3, 1, 2, 0), (3, 2, 0, 1)]) + ")"), "silent", note="the reversed table describes the same union of symmetric classes"),
         V("wedge1-table-duplicate", replace_expr(PW, "PinWords.has_finite_wedges_type_1", "Perm((3, 2, 0, 1))", "Perm((3, 1, 2, 0))"), "fire", "C16-W3"),
         V("m-accepts-UU", replace_expr(PW, "PinWords.make_dfa_for_m", "{'U': 3, 'D': 3, 'L': 2, 'R': 2}", "{'U': 1, 'D': 3, 'L': 2, 'R': 2}"), "fire", "C16-W4"),
         V("m-dead-state-accepting", replace_expr(PW, "PinWords.make_dfa_for_m", "frozenset({0, 1, 2})", "frozenset({0, 1, 2, 3})", which=1), "fire-or-undecided", "C16-W4"),
@@ -222,9 +226,98 @@ def rule_w4(ctx: Ctx) -> None:
 _OLD_RUN = run
 
 
+
+# ----------------------------------------------------------------------------- C16-W5: the tables are the bases of the classes they stand for
+# The three tests ask "does every basis element lie outside the closure of a family of simple permutations?".  The literal table
+# must therefore be the basis of the downward closure of that family (Brignall-Huczynska-Vatter; Bassino-Bouvel-Pierrot-Rossin
+# Thm: Av(1243,1324,1423,1432,2431,3124,4123,4132,4231,4312) for type 1, Av(2134,2143,3124,3142,3241,3412,4123,4132,4231,4312)
+# for type 2, Av(123,2413,3412) for parallel alternations).  The checker derives each basis from the generating family itself
+# (own tuple arithmetic below; nothing of the repository is executed) and compares it with the literal modulo the eight
+# symmetries, because the code closes the table under all of them.
+from itertools import combinations, permutations
+def std(seq):
+    s=sorted(seq); return tuple(s.index(x) for x in seq)
+def patterns(p, k):
+    return {std([p[i] for i in idx]) for idx in combinations(range(len(p)), k)}
+def contains(p, q):
+    return q in patterns(p, len(q))
+def rev(p): return tuple(reversed(p))
+def comp(p): n=len(p); return tuple(n-1-x for x in p)
+def inv(p):
+    r=[0]*len(p)
+    for i,x in enumerate(p): r[x]=i
+    return tuple(r)
+D4=[lambda p:p, rev, comp, lambda p: rev(comp(p)), inv, lambda p: inv(rev(p)), lambda p: inv(comp(p)), lambda p: inv(rev(comp(p)))]
+def closure_basis(members, maxlen=4):
+    basis=[]
+    for k in range(1, maxlen+1):
+        present=set()
+        for m in members:
+            if len(m)>=k: present |= patterns(m,k)
+        for q in permutations(range(k)):
+            if q not in present and not any(contains(q,b) for b in basis):
+                basis.append(q)
+    return set(basis)
+def parallel_alt(m):
+    out=[]
+    for i in range(m): out += [m-1-i, 2*m-1-i]
+    return tuple(out)
+def wedge1(n, down_first):
+    c = -(-(n-1)//2) if down_first else (n-1)//2
+    out=[]; d=c-1; u=c+1; turn=down_first
+    for _ in range(n-1):
+        if turn: out.append(d); d-=1
+        else: out.append(u); u+=1
+        turn = not turn
+    out.append(c)
+    assert sorted(out)==list(range(n)), out
+    return tuple(out)
+def wedge2(n):
+    rest=list(range(n-2))
+    L=[v for v in rest if v%2==1]; R=[v for v in reversed(rest) if v%2==0]
+    return tuple(L+[n-1]+R+[n-2])
+
+
+FAMILIES = {
+    "has_finite_alternations": ("parallel alternations (m-1, 2m-1, m-2, 2m-2, ...)", lambda: [parallel_alt(m) for m in range(2, 7)]),
+    "has_finite_wedges_type_1": ("wedge simples of type 1 (c-1, c+1, c-2, c+2, ..., c and its up-first twin)", lambda: [wedge1(n, d) for n in range(5, 13) for d in (True, False)]),
+    "has_finite_wedges_type_2": ("wedge simples of type 2 (1, 3, 5, ..., n-1, ..., 4, 2, 0, n-2)", lambda: [wedge2(n) for n in range(5, 13)]),
+}
+
+
+def literal_table(f: FuncInfo):
+    tables = [st for st in f.body if isinstance(st, ast.Assign) and isinstance(st.value, ast.Tuple)]
+    if len(tables) != 1:
+        raise AnalysisError(f"{f.where}: table literal not found")
+    out = []
+    for e in tables[0].value.elts:
+        if not (isinstance(e, ast.Call) and unparse(e.func) == "Perm" and len(e.args) == 1 and isinstance(e.args[0], (ast.Tuple, ast.List))
+                and all(isinstance(x, ast.Constant) and isinstance(x.value, int) for x in e.args[0].elts)):
+            raise AnalysisError(f"{f.where}: table entry {unparse(e)} is not a Perm((...)) literal")
+        out.append(tuple(x.value for x in e.args[0].elts))
+    return tables[0], out
+
+
+def rule_w5(ctx: Ctx) -> None:
+    for name, (what, fam) in FAMILIES.items():
+        f = ctx.repo.need_method("PinWords", name)
+        node, table = literal_table(f)
+        want = closure_basis(fam())
+        got = set(table)
+        images = [{g(q) for q in want} for g in D4]
+        if got in images:
+            ctx.ok("C16-W5", f.where, f"table = basis of the closure of the {what}, up to symmetry ({len(want)} permutations derived from the family)", node, f)
+            continue
+        best = min(images, key=lambda im: len(im ^ got))
+        extra = sorted(got - best)
+        missing = sorted(best - got)
+        ctx.violation("C16-W5", f, node, f"the table is not the basis of the closure of the {what}: {extra} should not be listed, {missing} is missing; classes whose basis elements meet the table only through these entries get the wrong verdict")
+
 def run(ctx: Ctx) -> None:  # noqa: F811
     _OLD_RUN(ctx)
     ctx.run(rule_w4, ctx)
+    ctx.run(rule_w5, ctx)
 
 
 FLOORS["C16-W4"] = 1
+FLOORS["C16-W5"] = 3
